@@ -38,7 +38,7 @@ EVALS = ["cids_where (fun c => negb (c_tie f_same c)) cases", "cids_where (fun c
 
 
 def run(run, args):
-    n, maxl, maxarr = (90, 200, 2500) if run.tier == "quick" else (700, 600, 30000)
+    n, maxl, maxarr = (150, 200, 2500) if run.tier == "quick" else (700, 600, 30000)
     prepare(run)
     rc, out, err, dt = run_harness(["conv", run.seed, n, maxl, maxarr], timeout=1200)
     if rc != 0:
@@ -55,7 +55,7 @@ def run(run, args):
     thr = Counter(r["thr"] for r in recs)
     cnts = Counter(e[2] for r in recs for e in r["ents"])
     run.cov.update({"evaluations": len(recs), "distinct_nontrivial": len(set(res[3])),
-                    "rule": "compositions of 1-3 elements from 18 (incl. Cl, Br, S, B, Li, Se, Fe, Cu) with counts from {0,1,2,3,4,5,7,8,9,15,16,17,31,32,33} "
+                    "rule": "compositions of 1-3 elements from 18 (incl. Cl, Br, S, B, Li, Se, Fe, Cu) with counts from {0..17, 31, 32, 33} "
                             "(every branch of the repeated-squaring power), limited to <= %d arrangements and <= %d isotopologues, both representations, "
                             "thresholds {0, 1e-12 .. 1e-2, 0.5, 0.9999}, charges -8..8, four carriers; plus the empty composition, a zero count and the "
                             "nothing-survives case; specification = exact multinomial expansion over Q; non-trivial = more than two peaks" % (maxarr, maxl),
